@@ -25,6 +25,6 @@ def register(reg, stubs, world):
                     ('returns-the-default-rule', out.value == val)]
         return [('KeyError-only-without-usable-default', z3.Not(found))]
     reg.add(Contract('policy:Rules.__missing__', pre=missing_pre, post=missing_post, raises=('KeyError',),
-                     props=('C03', 'C06'),
+                     props=('C03', 'C06'), decreases=lambda cx: z3.IntVal(0),
                      doc='default-rule fallback: check object, or a non-empty name that is itself defined; '
                          'never re-enters itself'))
